@@ -717,6 +717,33 @@ def check_passive_loop_next_to_active_twin(chk, rng):
     chk.coverage["traces_validated_against_impl"] += len(scns)
 
 
+def check_structural_passive_reader(chk, rng):
+    """a dictionary-shaped feedback read through passive(...) by an input that is declared structurally active (it would wake
+    on key-set changes): the loop adds a key on every pass, so it goes quiet only if the reader really is passive.
+    Level A is the statement itself: one evaluation of the writer per trigger tick, each delivered one step later."""
+    scns, metas = [], []
+    for k in range(12 if chk.tier == "quick" else 150):
+        horizon = rng.choice([7, 9])
+        ticks = P.gen_script(rng, horizon - 2, maxlen=3)
+        scns.append("\n".join(["scn spr%d" % k, "opt start=1 end=%d" % (horizon + 1), "graph root",
+                               "n 1 src script=" + ";".join("%d:%d" % (t, v) for t, v in ticks), "n 2 dfb", "n 3 dgrow in=1,2", "bind 2 3",
+                               "n 4 drec in=2", "endgraph", "run"]))
+        metas.append(ticks)
+    traces = hg.run_driver("engine", scns)
+    for scn, ticks, tr in zip(scns, metas, traces):
+        chk.count({"scn": scn})
+        if isinstance(tr, dict) or any(e["e"] in ("wirefail", "harnessfail") for e in tr):
+            chk.violation("spr:run", "structurally active passive reader scenario crashed or could not be wired", scn)
+            continue
+        evals = [e["t"] for e in tr if e["e"] == "fn" and e["id"] == 3]
+        deliv = [e["t"] for e in tr if e["e"] == "drec" and e["id"] == 4 and (e["mod"] or e["add"])]
+        want_e = [t for t, v in ticks]
+        if evals != want_e or deliv != [t + 1 for t in want_e]:
+            chk.violation("spr:not-quiescent", "the loop's writer must run at the trigger ticks %s only and each write be delivered one step "
+                          "later; it ran at %s, deliveries at %s" % (want_e, evals, deliv), "# C08 passive reader declared structurally active\n" + scn + "\n")
+    chk.coverage["traces_validated_against_impl"] += len(scns)
+
+
 def check_map_feedback(chk, rng):
     """a feedback loop INSIDE every child of a map_: each key accumulates its own values through its own loop (passive
     reader); a delivery is due one step after the write - also when, in that cycle, the map is woken only by another
@@ -778,6 +805,7 @@ def check_c08(chk, rng):
     check_dict_feedback(chk, rng)
     check_map_feedback(chk, rng)
     check_passive_loop_next_to_active_twin(chk, rng)
+    check_structural_passive_reader(chk, rng)
     quiet = 0
     for c in cases:
         if isinstance(c.events, dict):
